@@ -249,7 +249,29 @@ pub fn check(c: &Case) -> Verdict {
             }
         }};
     }
-    if c.buffered {
+    if c.buffered && data.len() % 3 == 1 {
+        // the async twins: read_event_into_async / read_to_end_into_async
+        use crate::sources::{block_on, ChunkedAsync};
+        let mut r = Reader::from_reader(ChunkedAsync::new(&data, crate::sources::cuts_fixed(3, data.len()), vec![1, 0]));
+        let mut buf = Vec::new();
+        let mut ebuf = Vec::new();
+        let mut sbuf = Vec::new();
+        body!(
+            r,
+            {
+                buf.clear();
+                block_on(r.read_event_into_async(&mut buf))
+            },
+            emu,
+            {
+                ebuf.clear();
+                block_on(emu.read_event_into_async(&mut ebuf))
+            },
+            qn,
+            block_on(r.read_to_end_into_async(qn, &mut sbuf))
+        );
+        v.classes.push("async-source");
+    } else if c.buffered {
         let mut r = Reader::from_reader(ChunkedBufRead::new(&data, crate::sources::cuts_fixed(3, data.len())));
         let mut buf = Vec::new();
         let mut ebuf = Vec::new();
